@@ -122,7 +122,18 @@ def summary_obligations(repo, chk, corrected, oid, report_kinds):
     chk.analysed['kernel_logs'] = I.log_calls
     _report_defects(chk, m, I, oid, report_kinds)
     want = kernel.expected(corrected)
-    msgs = kernel.diff(kernel.drop_harmless_guards(cs, corrected), want)
+    msgs = []
+    for pi, (nr, pcs) in enumerate(getattr(I, 'paths', [(nratio, cs)])):
+        pm = kernel.diff(kernel.drop_harmless_guards(pcs, corrected), want)
+        if pm and not corrected:
+            # plug-in MI is symmetric: H(X) - H(X|Y) is the same quantity (the corrected score is not symmetric)
+            pm2 = kernel.diff(kernel.drop_harmless_guards(pcs, corrected), kernel.expected(False, swapped=True))
+            if not pm2:
+                pm = []
+        if pm:
+            msgs = [f'(path {pi + 1} of {len(I.paths)} through the entry point) ' + x for x in pm] if len(getattr(I, 'paths', [])) > 1 else pm
+            cs, nratio = pcs, nr
+            break
     # defects already explain a mismatch; report the structural difference as well (it names the clause)
     if msgs:
         chk.bad(f'{oid}-sum', 'R9', fn.site(), ' ; '.join(c.render() for c in cs)[:400], f'the kernel does not compute {label}: ' + ' ; '.join(msgs)[:600])
@@ -319,6 +330,8 @@ def code_uses(repo, chk, oid):
                     d = m.dotted(p.func) or ''
                     if d in ('hash',) or d.startswith('xxhash') or d.endswith('.hash'):
                         chk.bad(oid, 'use-restriction', site, ast.unparse(p)[:100], 'hash of a category code')
+                    elif d in ('numpy.count_nonzero', 'numpy.sum', 'numpy.any', 'numpy.all', 'numpy.prod', 'numpy.mean', 'numpy.nonzero', 'numpy.flatnonzero', 'bool') and top in p.args and fname != 'numba_unique':
+                        chk.bad(oid, 'use-restriction', site, ast.unparse(p)[:100], f'{d.split(".")[-1]} applied directly to category codes uses their numeric value (zero / non-zero, magnitude): relabelling the codes changes the result')
                     elif fname == 'numba_unique' and d in ('numpy.max',):
                         pp = par.get(p)
                         # histogram sizing np.max(a) + 1: the one whitelisted arithmetic (C01.1 establishes the histogram)
